@@ -88,6 +88,15 @@ async function build(p, tracked, bufs) {
     const C = await cls("StB");
     return new C({ a, b: Array.from({ length: p.n }, (_, i) => i), c });
   }
+  if (p.kind === "nested") {
+    const obj = {};
+    for (const f of p.fields) {
+      const sub = Object.assign({}, f, { name: p.name + "." + f.name });
+      obj[f.name] = f.kind === "u16" ? 5 : await build(sub, tracked, bufs);
+    }
+    const C = await cls(p.cls);
+    return new C(obj);
+  }
   throw new Error("unknown kind " + p.kind);
 }
 
@@ -101,10 +110,11 @@ async function runCase(c, mode) {
   for (const p of c.params) holder.args.push(await build(p, tracked, bufs));
   const a0 = st.allocs.length, f0 = st.frees.length;
   let res = null, threw = null;
-  try { res = c.static ? H.m(...holder.args) : holder.self.m(...holder.args); }
+  const mname = c.method || "m";
+  try { res = c.static ? H[mname](...holder.args) : holder.self[mname](...holder.args); }
   catch (e) { threw = String(e && e.message || e).slice(0, 200); res = (e && typeof e.cause === "object") ? e.cause : null; }
   const allocs = st.allocs.slice(a0);
-  const out = { holder: c.holder, mode, threw, hasResult: res !== null && res !== undefined && typeof res === "object", weak: {}, ptrs: {}, bufs, allocs, f0 };
+  const out = { holder: c.holder, method: c.method || "m", mode, threw, hasResult: res !== null && res !== undefined && typeof res === "object", weak: {}, ptrs: {}, bufs, allocs, f0 };
   for (const [k, v] of Object.entries(tracked)) { out.weak[k] = new WeakRef(v.obj); out.ptrs[k] = v.ptr; }
   holder = null;
   return { res, out };
@@ -127,7 +137,7 @@ for (const { res, out } of pending) {
     const mine = out.allocs.filter(a => a[1] === size).map(a => a[0]);
     freed[k] = mine.length === 0 ? null : mine.every(p => frees.includes(p));
   }
-  report.push({ holder: out.holder, mode: out.mode, threw: out.threw, hasResult: out.hasResult, alive, destroyed, freed, resultStillHeld: res !== undefined });
+  report.push({ holder: out.holder, method: out.method, mode: out.mode, threw: out.threw, hasResult: out.hasResult, alive, destroyed, freed, resultStillHeld: res !== undefined });
 }
 // second phase: drop the results as well; everything should now be collectable (evidence only)
 let released = 0, total = 0;
@@ -246,3 +256,54 @@ def write_harness(outdir, cases):
     open(os.path.join(outdir, "diplomat-wasm.mjs"), "w").write(STUB)
     open(os.path.join(outdir, "vf_gc.mjs"), "w").write(DRIVER)
     json.dump({"cases": cases}, open(os.path.join(outdir, "vf_gc.json"), "w"))
+
+
+def nested_cases(nested):
+    """Rust source of holder opaques whose static methods take each nested struct and return `&'x Op` / `&'y Op`,
+    the driver cases and the must-stay-alive sets {(holder, method): [...]}."""
+    src, cases, musts = [], [], {}
+    for name, lts, fields in nested:
+        holder = "NH" + name[1:]
+        gens = ", ".join("'" + l for l in lts)
+        src.append("    #[diplomat::opaque] pub struct %s(pub u8);\n    impl %s {\n" % (holder, holder))
+        for l in lts:
+            src.append("        pub fn n%s<%s>(s: %s<%s>) -> &'%s Op { unimplemented!() }\n" % (l, gens, name, gens, l))
+        src.append("    }\n")
+        jf, n, used = [], 3, set()
+
+        def size(width):
+            nonlocal n
+            while n * width in used or n * width in (4, 5, 8, 12, 13, 16, 17):
+                n += 1
+            used.add(n * width)
+            n += 1
+            return n - 1
+        for fn, ty, uses in fields:
+            if ty.startswith("&"):
+                jf.append({"name": fn, "kind": "op", "n": 0})
+            elif ty.startswith("DiplomatSlice"):
+                jf.append({"name": fn, "kind": "u8s", "n": size(1)})
+            elif ty.startswith("StL"):
+                jf.append({"name": fn, "kind": "stl", "n": size(1)})
+            elif ty.startswith("StB"):
+                jf.append({"name": fn, "kind": "stb", "n": size(2)})
+            else:
+                jf.append({"name": fn, "kind": "u16", "n": 0})
+        for l in lts:
+            need = set()
+            for fn, ty, uses in fields:
+                for kind, ul in uses:
+                    if ul != l:
+                        continue
+                    if kind == "direct":
+                        need.add(("obj" if ty.startswith("&") else "buf", "s." + fn))
+                    elif kind == "p":
+                        need.add(("obj", "s.%s.a" % fn))
+                    else:
+                        need.add(("buf", "s.%s.b" % fn))
+                        if ty.startswith("StB"):
+                            need.add(("obj", "s.%s.c" % fn))
+            cases.append({"holder": holder, "method": "n" + l, "static": True, "impl_lts": 0, "modes": ["ok"],
+                          "params": [{"name": "s", "kind": "nested", "cls": name, "fields": jf}]})
+            musts[(holder, "n" + l)] = {"ok": sorted(need)}
+    return "".join(src), cases, musts
